@@ -213,13 +213,17 @@ def permuted_variant(c, seed_str):
 def wf_outside_guard(seed_str):
     rng = random.Random(seed_str)
     prog = faults.with_support(gen_check.WGen(rng).gen_program())
-    which = rng.choice(["string_eq", "array_elem_expr", "prim_array_elem_param", "array_elem_whole_cond"])
+    which = rng.choice(["string_eq", "array_elem_expr", "prim_array_elem_param", "array_elem_whole_cond",
+                        "paren_string_operand"])
     q = ("service", "Sq", [], [("q", faults.FQ)])
     P = faults.P
     if which == "string_eq":
         s = ("cond", ("bin", rng.choice(["==", "!="]), P("q", "label"), ("str", "a")), [("service", "Sp", [], [])], [])
     elif which == "array_elem_expr":
         s = ("cond", ("bin", "<", P("q", "items", 0, "n"), ("num", 3)), [("service", "Sp", [], [])], [])
+    elif which == "paren_string_operand":
+        s = ("cond", ("bin", rng.choice(["<", ">="]), ("paren", P("q", "label")), ("str", "a")),
+             [("service", "Sp", [], [])], [])
     elif which == "array_elem_whole_cond":
         s = ("cond", P("q", "items", 1, "ok"), [("service", "Sp", [], [])], [])
     else:
